@@ -44,6 +44,20 @@ LeadGaugesZeroImpliesPersisted == Lead(GaugesZeroImpliesPersisted)
 LeadDrainedIsPersisted == Lead(DrainedIsPersisted)
 LeadNamesAreRef == Lead(NamesAreRef)
 
+\* coverage goals: behaviours (breadth-first shortest) that reach a state of a wanted
+\* shape are printed and replayed; goals may look at the behaviour so far (hist).
+Goal(g) == ~g \/ PrintT(<<"BEH", ToJson(hist)>>)
+HistHas(i, a) == hist[i].act = a
+NonEmptyStoreAt(i) == \E p \in Paths : hist[i].exp.st[p].ex /\ \E k \in 1..NKeys : hist[i].exp.st[p].m[k].p
+\* the store is reopened with content and another persistence round completes afterwards
+GoalReopenThenPersist ==
+    Goal(Len(hist) > 0 /\ hist[Len(hist)].act = "PersisterSwap"
+         /\ \E i \in 1..Len(hist) : HistHas(i, "Reopen") /\ NonEmptyStoreAt(i))
+\* a snapshot is held while a later persistence round completes and the collection is closed
+GoalSnapHeldAcrossPersistAndClose ==
+    Goal(Len(hist) > 0 /\ hist[Len(hist)].act = "CloseEnd" /\ (\E s \in 1..MaxSnaps : snaps[s].open)
+         /\ \E i, j \in 1..Len(hist) : i < j /\ HistHas(i, "TakeSnapshot") /\ HistHas(j, "PersisterSwap"))
+
 \* one behaviour per explored transition (exhaustive configurations)
 Edge == PrintT(<<"BEH", ToJson(hist')>>)
 
